@@ -752,6 +752,12 @@ where
         R_: Registry,
     {
         if TypeId::of::<C>() == TypeId::of::<C_>() {
+            // Drop the removed component, which is no longer stored anywhere else.
+            drop(
+                // SAFETY: The bit buffer is guaranteed to have a valid, properly initialized value
+                // of type `C` at this point, which is not read again after this.
+                unsafe { buffer.cast::<C>().read_unaligned() },
+            );
             // Skip this component in the buffer.
             buffer =
                 // SAFETY: The bit buffer is guaranteed to have a value of type `C` at this point
